@@ -40,6 +40,8 @@ def run_one(case):
         m = re.search(rb'([\w./-]+):(\d+): [^\n]*Assertion', r.out)
         if m:
             site = 'assert@%s:%s' % (os.path.basename(m.group(1).decode()), m.group(2).decode())
+        if site == 'unknown' and r.rc < 0:
+            site = exptools.crash_site(case['tool'], text, args=case.get('args', ()))      # the sanitizer is silent (stack exhaustion, abort()): ask gdb where
         out['san'] = [nm, site]
         out['log'] = r.out[-1800:].decode('latin1')
     elif r.rc != 0 and not r.errors and b'rror' not in r.out and b'usage' not in r.out:
@@ -66,6 +68,15 @@ def pathological():
         yield 'many-attributes', n, H + 'ENTITY a;\n' + ''.join(' x%d : INTEGER;\n' % k for k in range(n // 10)) + 'END_ENTITY;\n' + F
         yield 'many-enum-items', n, H + 'TYPE e = ENUMERATION OF (' + ', '.join('i%d' % k for k in range(max(2, n // 10))) + '); END_TYPE;\n' + F
         yield 'long-expression', n, H + 'ENTITY a; x : INTEGER;\n DERIVE y : INTEGER := ' + ' + '.join(['x'] * max(2, n // 4)) + ';\nEND_ENTITY;\n' + F
+    # what the generators print into fixed-size buffers: the text of one WHERE rule / DERIVE initialiser / algorithm around the buffer sizes
+    for n in (50000, 70000, 99990, 100000, 100010, 120000, 250000, 1000000):
+        lit = "'" + 's' * n + "'"
+        yield 'where-string', n, H + 'ENTITY a; s : STRING;\n WHERE wr1 : s <> ' + lit + ';\nEND_ENTITY;\n' + F
+        yield 'where-two-strings', n, H + 'ENTITY a; s : STRING;\n WHERE wr1 : (s <> ' + lit + ') AND (s <> ' + lit + ');\nEND_ENTITY;\n' + F
+        yield 'derive-string', n, H + 'ENTITY a; s : STRING;\n DERIVE d : STRING := ' + lit + ';\nEND_ENTITY;\n' + F
+        yield 'function-string', n, H + 'FUNCTION f (x : STRING) : STRING;\n  RETURN (' + lit + ');\nEND_FUNCTION;\nENTITY a; s : STRING;\n DERIVE d : STRING := f (s);\nEND_ENTITY;\n' + F
+        yield 'rule-string', n, H + E + 'RULE r FOR (a);\n WHERE wr1 : SIZEOF (QUERY (t <* a | ' + lit + " = 'x')) = 0;\nEND_RULE;\n" + F
+        yield 'long-where', n, H + 'ENTITY a; x : INTEGER;\n WHERE wr1 : ' + ' + '.join(['x'] * max(2, n // 4)) + ' > 0;\nEND_ENTITY;\n' + F
     for d in (2, 19, 20, 21, 100):
         yield 'nested-remarks', d, H + '(* ' * d + 'x' + ' *)' * d + '\n' + E + F
         body = ''.join('FUNCTION f%d (a : INTEGER) : INTEGER;\n' % k for k in range(d)) + ''.join('RETURN (a);\nEND_FUNCTION;\n' for k in range(d))
